@@ -81,17 +81,20 @@ Components(c, b) ==        \* S, L (list of r matrices), M (list of r matrices) 
         ELSE [S |-> Mat(c.seed, sb, 3, c.n, 1),
               L |-> [k \in 1..c.r |-> Mat(c.seed, sb, k, c.n, 2)],
               M |-> [k \in 1..c.r |-> Mat(c.seed, sb, k, c.n, 3)]]
-StateCores(c) == FillCores(IF c.herm THEN "complex" ELSE "real", c.seed + 2,
+\* xr: a real-valued (real dtype) initial state also for the complex generators -iH
+StateCores(c) == FillCores(IF c.herm /\ ~c.xr THEN "complex" ELSE "real", c.seed + 2,
                            [rd |-> [k \in 1..c.d |-> c.n], cd |-> [k \in 1..c.d |-> 1],
                             rk |-> [k \in 1..(c.d + 1) |-> IF k = 1 \/ k = c.d + 1 THEN 1 ELSE 2]])
 
 Configs ==
-    {[d |-> d, n |-> n, r |-> r, hom |-> hom, herm |-> herm, seed |-> seed] :
-        d \in 2..(IF Level = 1 THEN 3 ELSE 4), n \in {2} \cup (IF Level = 1 THEN {} ELSE {3}), r \in 1..2,
-        hom \in BOOLEAN, herm \in BOOLEAN, seed \in {1, 2}}
-    \cup (IF Level = 1 THEN {[d |-> 4, n |-> 2, r |-> 1, hom |-> FALSE, herm |-> TRUE, seed |-> 1],
-                              [d |-> 2, n |-> 3, r |-> 2, hom |-> TRUE, herm |-> FALSE, seed |-> 1]} ELSE {})
-Ix(c) == c.d * 3 + c.n * 5 + c.r + c.seed * 7 + (IF c.hom THEN 1 ELSE 0) + (IF c.herm THEN 2 ELSE 0)
+    {c \in {[d |-> d, n |-> n, r |-> r, hom |-> hom, herm |-> herm, seed |-> seed, xr |-> xr] :
+        d \in 2..(IF Level = 1 THEN 3 ELSE 5), n \in {2} \cup (IF Level = 1 THEN {} ELSE {3}), r \in 1..2,
+        hom \in BOOLEAN, herm \in BOOLEAN, seed \in {1, 2}, xr \in BOOLEAN} :
+            (~c.herm => c.xr) /\ (c.d = 5 => c.n = 2 /\ c.r = 1 /\ c.seed = 1)}
+    \cup (IF Level = 1 THEN {[d |-> 4, n |-> 2, r |-> 1, hom |-> FALSE, herm |-> TRUE, seed |-> 1, xr |-> FALSE],
+                              [d |-> 5, n |-> 2, r |-> 1, hom |-> TRUE, herm |-> TRUE, seed |-> 1, xr |-> TRUE],
+                              [d |-> 2, n |-> 3, r |-> 2, hom |-> TRUE, herm |-> FALSE, seed |-> 1, xr |-> TRUE]} ELSE {})
+Ix(c) == c.d * 3 + c.n * 5 + c.r + c.seed * 7 + (IF c.hom THEN 1 ELSE 0) + (IF c.herm THEN 2 ELSE 0) + (IF c.xr THEN 4 ELSE 0)
 Init == cfg \in {c \in Configs : Ix(c) % NShards = Shard} /\ out = <<>>
 Build ==
     /\ out = <<>>
